@@ -951,6 +951,72 @@ def rule_r9(chk, prog):
     chk.floor('C08.R9', 'character constants in scanner tests', n, 8)
 
 
+def rule_r11(chk, prog):
+    chk.rule('C08.R11', 'every call of the reader starts from scratch: the '
+             'containers it fills while scanning (the stack of open '
+             's-expressions, the current list, the token buffers) are '
+             'created inside the call, not at module level')
+    m = prog.mod('nodeio')
+    f = m.func('parse_smtlib')
+    where = 'nodeio.parse_smtlib'
+    MUTM = ('append', 'extend', 'pop', 'clear', 'insert', 'remove', 'add',
+            'update', 'popleft', 'appendleft')
+    local_bound = {a.arg for a in f.args.args}
+    for x in ast.walk(f):
+        if isinstance(x, ast.Name) and isinstance(x.ctx, ast.Store):
+            local_bound.add(x.id)
+    gl = {n for x in ast.walk(f) if isinstance(x, ast.Global)
+          for n in x.names}
+    n = 0
+    seen = set()
+    for c in ast.walk(f):
+        base = None
+        if isinstance(c, ast.Call) and isinstance(
+                c.func, ast.Attribute) and c.func.attr in MUTM:
+            base = c.func.value
+        elif isinstance(c, (ast.Assign, ast.AugAssign)):
+            t = c.targets[0] if isinstance(c, ast.Assign) else c.target
+            if isinstance(t, ast.Subscript):
+                base = t.value
+            elif isinstance(t, ast.Name) and t.id in gl:
+                base = t
+        if base is None:
+            continue
+        while isinstance(base, ast.Subscript):
+            base = base.value
+        if not isinstance(base, ast.Name):
+            continue
+        n += 1
+        # a local bound to a module-level container is that container
+        name = base.id
+        if name in local_bound and name not in gl:
+            ds = [st.value for st in ast.walk(f) if isinstance(
+                st, ast.Assign) and any(isinstance(t2, ast.Name)
+                                        and t2.id == name
+                                        for t2 in st.targets)]
+            alias = [d for d in ds if isinstance(d, ast.Name)
+                     and d.id in m.globals and d.id not in local_bound]
+            if not alias:
+                continue
+            name = alias[0].id
+        if name in seen:
+            continue
+        if name in m.globals or name in gl:
+            seen.add(name)
+            chk.check('C08.R11', where, c, False,
+                      f'the reader fills the module-level container '
+                      f'"{name}" ("{unparse(c)[:50]}"): what one call '
+                      'leaves in it (the open s-expressions of a truncated '
+                      'input, say) is still there when the next text is '
+                      'read, which then comes back nested in stale '
+                      'expressions or not at all', loc=m.loc(c),
+                      nontrivial=True)
+    chk.instance('C08.R11', where, f'{n} container updates, all on '
+                 'containers created inside the call', not seen,
+                 'no module-level container is filled', nontrivial=True)
+    chk.floor('C08.R11', 'container updates in the reader', n, 5)
+
+
 def rule_r7(chk, prog):
     chk.rule('C08.R7', 'one lexer: a lexeme ends at the FIRST terminator '
              '(searches for several terminators are never combined with '
@@ -1165,6 +1231,7 @@ def run(tier):
     chk.guard(rule_r7, chk, prog)
     chk.guard(rule_r8, chk, prog)
     chk.guard(rule_r9, chk, prog)
+    chk.guard(rule_r11, chk, prog)
     tab = chk.guard(extract_table, chk, prog)
     if tab is not None:
         m, f, cfg, ex, top, states, table = tab
